@@ -9,9 +9,11 @@ def check(run):
                 'judged by the PullBound monitor; non-trivial = >= 2 input records and (>= 1 output row or an error)')
     run.assumptions = ['sort keys are non-None strings (None keys raise inside sorted(): observation I2)', 'weak reading of "stops pulling": stops at the record yielding the first candidate beyond the bound (DESIGN C02)']
     for mut in ('top_gt', 'desc_reverse_flag', 'uniq_keeps_last', 'no_stop_on_false'):
-        ec.spec_mutant(run, 'Q_C02ok', 'R_2x2', mut, maxA=3)
-    ec.run_family(run, 'C02-main', 'Q_C02ok', 'R_2x2', maxA=3 if quick else 4)
-    ec.run_family(run, 'C02-join', 'Q_C02joinok', 'R_2x2', recsB='R_2x2', maxA=2, maxB=2 if quick else 3)
+        ec.spec_mutant(run, 'Q_C02mut', 'R_2x2', mut, maxA=3)
+    ec.run_family(run, 'C02-main', 'Q_C02ok', 'R_2x2', maxA=2 if quick else 4)
+    if quick:
+        ec.run_family(run, 'C02-3rec', 'Q_C02mut', 'R_2x2', maxA=4)
+    ec.run_family(run, 'C02-join', 'Q_C02joinok', 'R_2x2', recsB='R_2x2', maxA=2 if quick else 2, maxB=2 if quick else 3)
     run.exhaustive = True
 
 
